@@ -28,11 +28,11 @@ for pid in props:
     if pid in claimed:
         continue
     na.append({"property_id": pid, "reason": table['not_applicable'].get(pid, "check not built yet (construction in progress)")})
-hooks_commits = table.get('hook_commits', [])
+hooks_commits = subprocess.run(['git','-C','/repo','log','--grep=^verif:','--format=%h','--reverse'],capture_output=True,text=True).stdout.split() or table.get('hook_commits', [])
 m = {
     "version": 1,
     "setup_cmd": "cd /verif/govc && GOFLAGS=-mod=mod GOPROXY=off GOSUMDB=off GOTOOLCHAIN=local go build -o /verif/bin/govc .",
-    "hooks": {"guard": "verif", "enable": "-tags verif (govc loads /repo with this tag; the guarded files contain contracts and ghost lemma functions only)",
+    "hooks": {"guard": "verif", "enable": "-tags verif (govc loads /repo with this tag; the guarded files contain contract comments only, no code)",
               "baseline_off_cmd": "cd /repo && go test -vet=off -count=1 -timeout 25m ./...", "source_commits": hooks_commits, "add_only": True},
     "engines": [{"name": "govc", "path": "/verif/govc", "serves_properties": sorted(claimed),
                  "kind_free_text": "verification-condition generator for Go (go/ssa symbolic execution against contracts) + SMT portfolio (z3 5.1.0, z3 4.8.12, cvc5 1.0.3)"}],
